@@ -27,7 +27,7 @@ ASSUMPTIONS = [
     "reference signer/verifier are correct",
 ]
 
-DEC = {"string": U.sigdecode_string, "der": U.sigdecode_der}
+DEC = {"string": U.sigdecode_string, "der": U.sigdecode_der, "strings": U.sigdecode_strings}
 
 
 def check_case(ctx, case, enum=False):
@@ -97,6 +97,11 @@ def check_case(ctx, case, enum=False):
                 ok = vk.verify_digest(sig, digest, sigdecode=DEC[decn], allow_truncate=at)
             if ok is not True:
                 problems.append("returned-key-verify-not-True")
+            if case.get("precompute"):
+                vk.precompute(lazy=case["precompute"] == "lazy")
+                again = vk.verify_digest(sig, digest, sigdecode=DEC[decn], allow_truncate=at_eff)
+                if again is not True:
+                    problems.append("returned-key-fails-after-precompute")
         except BadSignatureError:
             problems.append("returned-key-does-not-verify(library)")
         except Exception as ex:
@@ -146,7 +151,8 @@ def toy_sweep(ctx, cname, digests):
             for dg in digests:
                 i += 1
                 check_case(ctx, {"curve": cname, "d": dd, "k": k, "payload": dg.hex(), "hash": "sha1",
-                                 "at": True, "dec": ("string", "der")[i % 2], "entry": "digest",
+                                 "at": True, "dec": ("string", "der", "strings")[i % 3], "entry": "digest",
+                                 "precompute": (None, None, "lazy", "eager")[i % 4],
                                  "boundary": dd in (1, n - 1) or k in (1, n - 1)}, enum=True)
 
 
@@ -177,7 +183,7 @@ def infinity_cases(ctx, cname, per, seed):
 
 
 def st_named(names):
-    def mk(cname, di, ki, u1, u2, hname, entry, payload, at, decn):
+    def mk(cname, di, ki, u1, u2, hname, entry, payload, at, decn, pre=None):
         n = gen.dom(cname).n
         bs = gen.boundary_scalars(n)
         dd = bs[di % len(bs)] if di >= 0 else 1 + u1 % (n - 1)
@@ -189,12 +195,12 @@ def st_named(names):
         if entry == "data" and not at and 8 * gen.HASHES[hname]().digest_size > n.bit_length():
             at = True
         return {"curve": cname, "d": dd, "k": k, "payload": payload.hex(), "hash": hname, "at": at, "dec": decn,
-                "entry": entry, "boundary": di >= 0 or ki >= 0}
+                "entry": entry, "boundary": di >= 0 or ki >= 0, "precompute": pre}
     return st.builds(mk, st.sampled_from(names), st.integers(-10, 50), st.integers(-10, 50),
                      st.integers(0, 1 << 530), st.integers(0, 1 << 530), st.sampled_from(gen.HASH_NAMES),
                      st.sampled_from(["data", "digest"]),
                      st.one_of(st.binary(max_size=70), st.binary(min_size=90, max_size=140)), st.booleans(),
-                     st.sampled_from(["string", "der"]))
+                     st.sampled_from(["string", "der", "strings"]), st.sampled_from([None, None, "lazy", "eager"]))
 
 
 COF1 = [c for c in gen.NAMED if c != "SECP112r2"]
